@@ -52,6 +52,38 @@ CHECKS = {
         "Tie: generated deserializers vs model on valid serializations, every prefix, 0x00/0xFE/0xFF-biased edits, junk, random bytes, both entry modes.",
    technique="Coq proof (reader invariant preserved through the deserializer semantics, error-kind analysis under a decidable well-formedness check) + differential correspondence on hostile bytes",
    note=GEN_NOTE + "'Deserializations whose hostile length fields make CPython loop thousands of times are checked by the oracle but excluded from the in-Coq evaluation (marked heavy).", ref="8 (C03)"),
+ 'C14': dict(
+   text="Coq theorems over ALL declarations (any names/ordinals, aliases allowed) and ALL integers (Properties/C14.v): a declared ordinal yields the first declared member of that ordinal - the same "
+        "result after any history of other constructions; any other integer yields Unrecognized n, named \"Unrecognized(<decimal n>)\" (names distinct for distinct n), converting back to n; int value "
+        "is always kept; the class state (members, value map) is unchanged by any sequence of calls; members are distinct and are exactly the declared ordinals. Tie (the behaviour lives in CPython's "
+        "EnumMeta): enum classes made by the REAL generator, by class source and by the functional API are called with declared/neighbouring/limit/huge/negative integers; identity, isinstance, ==, hash, "
+        "name, value, list(E), __members__ are observed, and enum-typed fields/arrays (with underlying-type overrides) are written and read back through generated structs.",
+   technique="Coq proof (lookup/first-index lemmas over the class-state model, decimal injectivity) + differential correspondence with CPython enum behaviour on generated and hand-made classes",
+   note=COMMON_NOTE + "Only CPython 3.12.1 is available; int.__eq__/__hash__ are runtime behaviour (observed, not proved).", ref="8 (C14)"),
+ 'C18': dict(
+   text="Coq theorems (Properties/C18.v) over ALL import-line lists and ALL file lists: rendering of imports is invariant under permutation and duplication of the set iteration (hash seed), "
+        "complete, duplicate-free and future-first; with a valid layout (distinct output paths) the files written do not depend on the walk order, nor on what the output directory held, re-running is "
+        "idempotent, other paths are untouched; every declared type has its module file and its directory's __init__ star-imports it; snake_case yields no upper-case letters. Partial by nature: that the "
+        "emitted text is valid Python and imports is decided by running CPython. Tie: the REAL generator runs 11 times per tree (PYTHONHASHSEED 0/1/2/random, three patched os.walk orders, reversed "
+        "creation order, re-run into the same directory, pre-populated directory) -> byte-identical files; the package is imported and every declared name checked; the model predicts the file set and __init__ lines.",
+   technique="Coq proof (sorting/permutation invariance, fold-of-writes with distinct paths) + repeated real generation under varied seeds/orders + import of the result",
+   note=COMMON_NOTE + "Contents of class modules are abstract in the model (their determinism is observed byte-for-byte); cross-directory cyclic type references (circular imports) are outside valid trees.", ref="8 (C18)"),
+ 'C19': dict(
+   text="Coq theorems over ALL envs, heaps, instances and histories of public operations and caller-side mutations (Properties/C19.v, object/heap model Model/ObjModel.v): assignment to any property "
+        "is rejected and changes nothing; a constructed instance (array arguments copied by tuple, other arguments immutable as annotated) and every deserialized instance is frozen (no slot refers to a "
+        "mutable cell); the instance never changes; every serialization between arbitrary operations equals the first one, under any heap; getters never hand out a mutable cell; the exclusion of "
+        "mutable non-array arguments is shown necessary. Tie: every generated class (case-data classes included) is poked through its whole public interface (setattr/delattr on every property incl. "
+        "byte_size, in-place mutation of every returned value, mutation of the lists it was built from), re-serialized on fresh and long-lived writers, constructed and deserialized alike.",
+   technique="Coq proof (frozen-instance invariant over an object/heap model, serializer reads fields only through lookups) + exhaustive poking of generated classes",
+   note=COMMON_NOTE + "CPython's attribute protocol is modelled (data descriptor without setter), CPython is the oracle; assigning new attribute names / private slots is outside 'public interface'.", ref="8 (C19)"),
+ 'C20': dict(
+   text="Coq theorems about an operational model of the import system (Model/PyImport.v; Properties/C20.v) for ALL programs, worlds, fuels and first imports: imports are fuel-monotone and idempotent, "
+        "nothing leaves sys.modules, parents are imported to completion first, definitions bind themselves, star-imports copy exactly the public names of the target at that moment, and the key result "
+        "C20_own_submodules: in any fresh run, every package whose body ends with the re-binding loop resolves each listed name to its own submodule - whatever the star-imports copied (the defect "
+        "is reproduced without the loop). Tie: the import program of EVERY eolib module, static and generated, is re-extracted from the files on each run (tools/impprog.py, fail-closed) and run through "
+        "the model; its verdict on every documented path and public name must equal CPython's, observed in fresh interpreters for up to 17 different first imports per tree.",
+   technique="Coq proof (operational import-system model; frame and post-condition lemmas by mutual fuel induction) + per-run extraction of import programs + fresh-interpreter identity probes",
+   note=COMMON_NOTE + "The import system itself is modelled (CPython is the oracle); the universal theorem covers module paths re-bound by the loop, names are decided per tree by evaluation of the model.", ref="8 (C20)"),
  'C15': dict(
    text="Coq theorems over ALL fuel/env/class/value/writer and reader states, Ok or Err alike (Properties/C15.v): serialize leaves the sanitisation mode and deserialize the chunked mode "
         "as found - for ANY nested callee; inside a body the mode is the static function of the entry mode and the mode statements executed (also on error, up to the failing statement, "
